@@ -155,7 +155,7 @@ def case_mibdump(idx, rng, tier, res):
         health = {}
         for m in mods:
             r = rng.random()
-            health[m] = 'ok' if r < 0.7 else ('absent' if r < 0.82 else rng.choice(['synerr', 'unresolved', 'untyped', 'truncated', 'oidloop']))
+            health[m] = 'ok' if r < 0.7 else ('absent' if r < 0.82 else rng.choice(['synerr', 'unresolved', 'untyped', 'truncated', 'macro_open', 'oidloop']))
             if health[m] == 'oidloop' and fmt == 'null':
                 health[m] = 'unresolved'    # the null generator resolves no OIDs: nothing to detect there
         requested = [mods[0]] if gname != 'two_roots' else mods[:2]
